@@ -289,6 +289,13 @@ KERNELS_F = [
 KERNELS += KERNELS_F
 
 
+HDRW = ["patient_position", "time_frame_definitions", "energy_windows", "image_data_descriptions", "modality", "radionuclide_info"]
+KERNELS_W = [dict(name="K_hdrw_" + n, file=IFC, cxx_name="write_interfile_%s: number-format state of the header stream (control skeleton + stream operations)" % n,
+                  func=r"write_interfile_%s\(std::ostream& output_header,[^)]*\)" % n, c_header="void K_hdrw_%s(void)" % n,
+                  rules=[(r"\A.*\Z", _stream_skeleton("output_header"), 1)]) for n in HDRW]
+KERNELS += KERNELS_W
+
+
 def jobs(tier, gen_dir):
     out = []
     for t in TYPES:
@@ -345,10 +352,13 @@ def jobs(tier, gen_dir):
                    min_obligations=10, timeout=600, backend="kissat", loop_contracts=True, replay="geometry"))
     out.append(Job("c10/canary/K_hdr_stream_format", HARNESS_G, "h_K_hdr_stream_format", enforce="K_hdr_stream_format", kernels=["K_hdr_stream_format"], kind="canary",
                    defines={"CANARY_K_hdr_stream_format": None}, expect_fail=r"K_hdr_stream_format\.(postcondition|assertion)", no_base_flags=True, timeout=600, loop_contracts=True))
+    for n in HDRW:
+        out.append(Job("c10/K_hdrw_" + n, HARNESS_G, "h_K_hdrw_" + n, enforce="K_hdrw_" + n, kernels=["K_hdrw_" + n], flags=CHK, no_base_flags=True, min_obligations=2, timeout=300,
+                       backend="kissat", loop_contracts=True, replay="geometry"))
     return out
 
 
-TRUSTED = ["BasicCoordinate arithmetic is component-wise (C3F/C3I helpers in contracts/c10g.h); the header writer's callees that receive the stream insert values and leave its format state alone",
+TRUSTED = ["BasicCoordinate arithmetic is component-wise (C3F/C3I helpers in contracts/c10g.h); the header writers' callees that receive the stream: proved to insert readable values and to leave the format state as found (K_hdrw_*), applied by hand in the callers' skeletons (K_VAL)",
            "std::max_element / std::min_element deliver the largest / smallest input value (mx, mn are parameters of the kernel)",
            "input element type float, scale factor type float (the instantiation used by the image writers); IEEE-754 round-to-nearest"]
 ASSUMPTIONS = []
